@@ -164,6 +164,27 @@ def check(ctx):
                 for x in ast.walk(n.ast.value):
                     if is_concat3(x) and isinstance(n.ast.targets[0], ast.Name) and x.left.right.id == n.ast.targets[0].id:
                         asm.append((n, x.left.left.id, x.left.right.id, x.right.id))
+        if not asm:
+            # two-step assembly: `name = start + name`, later `name = name + end` - `end` being the name that is chosen
+            # together with `start` (`start = end = <quote>`)
+            def step(n, prefix):
+                a = n.ast
+                if n.kind == "stmt" and isinstance(a, ast.Assign) and len(a.targets) == 1 and isinstance(a.targets[0], ast.Name) and isinstance(a.value, ast.BinOp) and isinstance(a.value.op, ast.Add) and isinstance(a.value.left, ast.Name) and isinstance(a.value.right, ast.Name):
+                    x = a.targets[0].id
+                    l, r = a.value.left.id, a.value.right.id
+                    if prefix and r == x and l != x:
+                        return (x, l)
+                    if not prefix and l == x and r != x:
+                        return (x, r)
+                return None
+
+            pres = [(n, step(n, True)) for n in cfg.nodes if step(n, True)]
+            if len(pres) == 1:
+                pn, (body_, open_) = pres[0]
+                co = {t.id for n in walk_local(fn) if isinstance(n, ast.Assign) and len(n.targets) > 1 and any(isinstance(t, ast.Name) and t.id == open_ for t in n.targets) for t in n.targets if isinstance(t, ast.Name) and t.id != open_}
+                sufs = [(n, step(n, False)) for n in cfg.nodes if step(n, False) and step(n, False)[0] == body_ and step(n, False)[1] in co]
+                if len(sufs) == 1:
+                    asm.append((sufs[0][0], open_, body_, sufs[0][1][1]))
         if len(asm) != 1:
             raise AnchorMissing(f"{site}: the assembly `<start> + <name> + <end>` was not found exactly once ({len(asm)})")
         anode, OPEN, BODY, CLOSE = asm[0]
@@ -379,6 +400,11 @@ def _listing_verbatim(ctx):
     st = "xonsh/tools.py:_case_insensitive_iglob"
     LIST = ("os.listdir", "os.scandir", "listdir", "scandir")
     helpers = [n for n in ast.walk(outer) if isinstance(n, (ast.FunctionDef, ast.Lambda)) and n is not outer and any(call_name(c) in LIST for c in ast.walk(n) if isinstance(c, ast.Call))]
+    if not helpers:
+        # the listing helper may live at module level (`_glob_listdir(dirname, part, ..)`): functions of this module that
+        # the walker calls and that list a directory
+        called = {(call_name(c) or "") for c in ast.walk(outer) if isinstance(c, ast.Call)}
+        helpers = [f for q, f in tl.functions() if "." not in q and q in called and any(call_name(c) in LIST for c in ast.walk(f) if isinstance(c, ast.Call))]
     scopes = helpers or [outer]
     n_ret = 0
     for h in scopes:
